@@ -137,6 +137,15 @@ func c18Case(c *Ctx) {
 	}
 	minLen := 8
 	calls := 0
+	if canary {
+		for _, ch := range canaryChars { // no diagnostic can contain a canary character, drawn or not
+			add(ch, false)
+		}
+	}
+	if c.Case%4 >= 2 { // the retry knobs lowered: attempts run out for real, separator recipes fail for real
+		defer knobs(1+c.Case%3, 1)()
+		c.Count("batches_with_lowered_knobs", 1)
+	}
 	cp, err := startCapture(c.Dir, c.Case)
 	if err != nil {
 		c.Inconclusive("cannot redirect fd 1/2: " + err.Error())
@@ -198,6 +207,13 @@ func c18Case(c *Ctx) {
 				if mode == 3 {
 					g = runGen(rec, nil)
 				} else {
+					if mode == 0 && c.R.Chance(1, 2) { // the identical stream several times in a row (a stuck source)
+						for rep := 0; rep < 2; rep++ {
+							t2 := &tape.Tape{Script: script, AutoExtend: true, MaxDraws: 4000}
+							addPw(runGen(rec, t2).Pw, canary)
+							calls++
+						}
+					}
 					g = runGen(rec, t)
 					// every candidate the tape made the generator draw is a secret-in-waiting
 					if len(sem.Alphabet) > 0 && rec.Length > 0 {
@@ -262,7 +278,11 @@ func c18Case(c *Ctx) {
 					w.Length = c.R.Range(1, 5)
 					w.Scheme = schemes[c.R.Intn(5)]
 					w.SepKind = "constructed"
-					w.sepRec = spg.CharRecipe{Length: c.R.Range(1, 2), AllowChars: strings.Join(c.R.ShuffleStrings(canaryChars)[:3], "")}
+					sepChars := c.R.ShuffleStrings(canaryChars)[:3]
+					w.sepRec = spg.CharRecipe{Length: c.R.Range(1, 3), AllowChars: strings.Join(sepChars, "")}
+					if c.R.Bool() {
+						w.sepRec.RequireSets = []string{sepChars[0]} // separator candidates get rejected too
+					}
 					d := descChar(w.sepRec)
 					w.SepRec = &d
 				} else {
@@ -287,6 +307,13 @@ func c18Case(c *Ctx) {
 					t = &tape.Tape{Script: script, AutoExtend: true}
 				case 1:
 					t = &tape.Tape{Script: script, AutoExtend: true, FaultAt: c.R.Range(1, 2*w.Length), FaultBytes: c.R.Intn(4)}
+				}
+				if t != nil && t.FaultAt == 0 && c.R.Chance(1, 2) { // identical stream twice in a row
+					t2 := &tape.Tape{Script: script, AutoExtend: true}
+					addPw(runGen(b.fresh(w).Rec, t2).Pw, canary)
+					t3 := &tape.Tape{Script: script, AutoExtend: true}
+					addPw(runGen(b.fresh(w).Rec, t3).Pw, canary)
+					calls += 2
 				}
 				g := runGen(b.Rec, t)
 				calls++
